@@ -15,7 +15,7 @@ RULE = ("dlgen programs x a set of RAM transformers skipped through the SOUFFLE_
 
 
 def prop_case(ch):
-    P = dlgen.generate(ch, dlgen.Feat())
+    P = dlgen.generate(ch, dlgen.Feat(adts=True, ranges=True, disjunctions=True, multihead=True))
     text, facts = dlgen.to_souffle(P)
     if ch.bool(0.3):
         skip = ch.subset(PASSES, 0.3) or [ch.choice(PASSES)]
